@@ -24,6 +24,19 @@ VERIF = os.path.dirname(os.path.dirname(os.path.abspath(__file__)))
 COQ = os.path.join(VERIF, "coq")
 HARNESS = os.path.join(VERIF, "harness")
 WORK = os.path.join(VERIF, "work")
+# The repository under test.  Registered checks always use /repo; VERIF_REPO=<scratch worktree> is a
+# development aid (seeded-bug experiments in parallel): the harness is then built against that tree
+# through cargo's `paths` override into a separate target directory, and work/evidence/replays go
+# to work-<tag>/ so that nothing of the real run is overwritten.
+REPO = os.path.abspath(os.environ.get("VERIF_REPO", "/repo"))
+ALT = REPO != "/repo"
+ALT_TAG = re.sub(r"[^A-Za-z0-9]+", "_", REPO).strip("_") if ALT else ""
+if ALT:
+    WORK = os.path.join(VERIF, "work-" + ALT_TAG)
+if ALT:
+    # private copy of the Coq project (translators regenerate files in it from the scratch tree)
+    COQ = os.path.join(WORK, "coq")
+REPO_CRATES = ["duke", "duke-macros", "dukebox", "dukenest", "quill", "raw_class_file", "maven_dependency_resolver"]
 
 FORBIDDEN = re.compile(r"\b(Admitted|admit|Axiom|Axioms|Parameter|Parameters|Conjecture|Hypothesis|Variable|Variables|Hypotheses)\b|Unset\s+Guard|bypass_check|type-in-type|impredicative-set|Admit Obligations|Unset\s+Positivity|Unset\s+Universe")
 # axioms of Coq's standard library that a theorem may depend on (each is named in the evidence)
@@ -166,9 +179,19 @@ def axioms_in(text):
     return ax or ["<unparsed: %s>" % text[:80]]
 
 
+def harness_target_dir():
+    return os.path.join("/tmp", "verif-target-" + ALT_TAG) if ALT else os.path.join(HARNESS, "target")
+
+
 def harness_build(prop):
+    cmd = ["cargo", "build", "--offline", "--bin", prop.lower()]
+    env = {}
+    if ALT:
+        paths = ",".join('"%s"' % os.path.join(REPO, c) for c in REPO_CRATES if os.path.isdir(os.path.join(REPO, c)))
+        cmd += ["--config", "paths=[%s]" % paths, "--config", 'env.FBH_REPO="%s"' % REPO]
+        env["CARGO_TARGET_DIR"] = harness_target_dir()
     with Lock("cargo"):
-        rc, out = run(["cargo", "build", "--offline", "--bin", prop.lower()], cwd=HARNESS, timeout=3000)
+        rc, out = run(cmd, cwd=HARNESS, timeout=3000, env=env)
     return rc == 0, out
 
 
@@ -231,6 +254,9 @@ def main(prop, spec):
     seed = int(os.environ.get("VERIF_SEED", "1"))
     workdir = os.path.join(WORK, prop)
     os.makedirs(workdir, exist_ok=True)
+    if ALT:
+        with Lock("coqsync"):
+            run(["rsync", "-a", "--delete", os.path.join(VERIF, "coq") + "/", COQ + "/"])
     os.makedirs(os.path.join(VERIF, "evidence"), exist_ok=True)
     os.makedirs(os.path.join(VERIF, "replays"), exist_ok=True)
 
@@ -281,10 +307,10 @@ def main(prop, spec):
         tail = "\n".join([l for l in bout.split("\n") if l.startswith("error") or "-->" in l][:30])
         broken.append(("harness-build", "cargo build of the harness against /repo failed (the code no longer offers what the tie needs):\n" + tail))
     else:
-        cmd = [os.path.join(HARNESS, "target", "debug", prop.lower()), str(seed), tier, workdir]
+        cmd = [os.path.join(harness_target_dir(), "debug", prop.lower()), str(seed), tier, workdir]
         if args.replay:
             cmd.append(args.replay)
-        rc, hout = run(cmd, cwd=VERIF, timeout=spec.get("harness_timeout", 3000))
+        rc, hout = run(cmd, cwd=VERIF, timeout=spec.get("harness_timeout", 3000), env={"VERIF_REPO": REPO})
         if rc != 0:
             broken.append(("harness-run", "harness exited with %s:\n%s" % (rc, hout[-2000:])))
         else:
@@ -323,7 +349,7 @@ def main(prop, spec):
 
     def write_replay(text):
         nonlocal nrep
-        path = os.path.join(VERIF, "replays", "%s-%d-%d.txt" % (prop, seed, nrep))
+        path = os.path.join(WORK if ALT else os.path.join(VERIF, "replays"), "%s-%d-%d.txt" % (prop, seed, nrep))
         nrep += 1
         with open(path, "w") as f:
             f.write(text if text.endswith("\n") else text + "\n")
@@ -391,7 +417,7 @@ def main(prop, spec):
         "wall_s": round(time.time() - t0, 2),
         "violations": len(violations) + (1 if (broken or disagreements) and not violations else 0),
     }
-    with open(os.path.join(VERIF, "evidence", prop + ".json"), "w") as f:
+    with open(os.path.join(WORK if ALT else os.path.join(VERIF, "evidence"), prop + ".json"), "w") as f:
         json.dump(ev, f, indent=1)
     log("%s %s seed=%d: obligations %d/%d, correspondence %d cases (%d disagreements), oracle evaluations %d, violations %d, %.1fs" % (
         prop, tier, seed, discharged, len(names), ev["coverage"]["correspondence_cases"], len(disagreements), ev["coverage"]["evaluations"], ev["violations"], ev["wall_s"]))
